@@ -175,6 +175,13 @@ func realMain() int {
 		"CGO_ENABLED=1",
 	)
 	fmt.Printf("check %s tier=%s VERIF_SEED=%d runs=%d workers=%d\n", prop, *tier, seed, tc.Runs, tc.Workers)
+	if *det > 0 {
+		// ast-inserted yields sit inside nfpm's own range-over-map loops,
+		// whose iteration order Go randomises (S9): schedules over them are
+		// not a function of the seed. The determinism self-test therefore
+		// covers the coarse yield points; see DESIGN.md 10.10.
+		d.cfg.Instrument = false
+	}
 	if *replay != "" {
 		// a replay file recorded under the instrumented build needs it again
 		if b, err := os.ReadFile(*replay); err == nil {
